@@ -199,6 +199,9 @@ func (s *KVSnapshot) SetSnapshotTS(ts uint64) {
 	s.mu.Unlock()
 	// And also remove the minCommitTS pushed information.
 	s.resolvedLocks = util.TSSet{}
+	// The locks that may be read through were committed at or before the old snapshotTS; that says nothing
+	// about the new one.
+	s.committedLocks = util.TSSet{}
 }
 
 // IsInternal returns if the KvSnapshot is used by internal executions.
